@@ -120,3 +120,109 @@ def near_misses(rng, v):
     for m in mutate(v):
         out.append(m)
     return out
+
+
+# ---------------------------------------------------------------- output-guided second preimages
+_SKIP = object()
+
+
+def mined_candidates(to_hashable, v, limit=60):
+    """Second-preimage mining for an encoding h = to_hashable: re-read the *observed* encoding of
+    every subtree of the sanitized JSON value v in every other plausible way (as a list with or
+    without a leading tag, as a flat key/value dict with or without a leading tag, as a scalar,
+    as a boolean/empty container) and return the values obtained by substituting that re-reading
+    for the subtree.  Nothing is assumed about the encoding except that it is built from tuples
+    and scalars; whatever tags it uses are taken from its own output, so a collision between, say,
+    a list and a dict that happens to have the tag as a key is constructed rather than guessed."""
+    known = {}
+
+    def learn(x):
+        try:
+            hx = to_hashable(x)
+            hash(hx)
+        except Exception:
+            return
+        try:
+            known.setdefault((hx.__class__.__name__, hx), x)
+        except TypeError:
+            pass
+        if isinstance(x, list):
+            for e in x:
+                learn(e)
+        elif isinstance(x, dict):
+            for e in x.values():
+                learn(e)
+
+    learn(v)
+
+    def child(e):
+        k = (e.__class__.__name__, e)
+        if k in known:
+            return known[k]
+        if isinstance(e, tuple):
+            return _SKIP
+        return e
+
+    def reread(hx):
+        out = []
+        if not isinstance(hx, tuple):
+            return [[hx], {str(hx): None} if isinstance(hx, str) else [hx, None]]
+        elems = list(hx)
+        for off in (0, 1):
+            if off > len(elems):
+                continue
+            rest = [child(e) for e in elems[off:]]
+            if any(r is _SKIP for r in rest):
+                continue
+            out.append(list(rest))
+            if len(rest) % 2 == 0 and all(isinstance(rest[i], str) for i in range(0, len(rest), 2)):
+                out.append({rest[i]: rest[i + 1] for i in range(0, len(rest), 2)})
+            if len(rest) == 1:
+                out.append(rest[0])
+        if len(elems) <= 1:
+            out += [True, False, None, [], {}, 0, 1, 2]
+        if elems and isinstance(elems[0], (str, int)) and not isinstance(elems[0], bool):
+            # the leading element taken as data of the *other* container kind
+            tag = elems[0]
+            rest = [child(e) for e in elems[1:]]
+            if not any(r is _SKIP for r in rest):
+                out.append([tag] + rest)
+                if len(rest) == 1:
+                    out.append({str(tag): rest[0]})
+        return out
+
+    def paths(x, p=()):
+        yield p, x
+        if isinstance(x, list):
+            for i, e in enumerate(x):
+                yield from paths(e, p + (i,))
+        elif isinstance(x, dict):
+            for k, e in x.items():
+                yield from paths(e, p + (k,))
+
+    def subst(x, p, new):
+        if not p:
+            return new
+        if isinstance(x, list):
+            y = list(x)
+            y[p[0]] = subst(x[p[0]], p[1:], new)
+            return y
+        y = dict(x)
+        y[p[0]] = subst(x[p[0]], p[1:], new)
+        return y
+
+    cands = []
+    for p, sub in paths(v):
+        try:
+            hx = to_hashable(sub)
+        except Exception:
+            continue
+        for alt in reread(hx):
+            try:
+                c = subst(v, p, alt)
+            except Exception:
+                continue
+            cands.append(c)
+            if len(cands) >= limit:
+                return cands
+    return cands
